@@ -175,3 +175,33 @@ def public_wrappers_of(prog, roots):
     """in-crate functions that are the entry points used by other modules for the given root wrappers:
     here simply the roots plus functions that do nothing but forward to them (FileTrait impl)."""
     return set(roots)
+
+
+def header_insert_sites(prog, f):
+    """calls in `f` that insert a record header into the in-memory index: Vec / BTreeMap `insert`, or a call of a helper of the
+    same file that does (`insert_ordered_by_timestamp(v, h)`); [(call, kind)] with kind 'vec' | 'map'"""
+    def kind_of(c):
+        if c.name != 'insert':
+            return None
+        if c.path.startswith('std::vec::Vec'):
+            return 'vec'
+        if c.path.startswith('std::collections::BTreeMap') or c.path.startswith('std::collections::btree') or 'BTreeMap' in c.path:
+            return 'map'
+        return None
+    out = []
+    for c in f.calls:
+        if c.bb not in f.reachable():
+            continue
+        k = kind_of(c)
+        if k:
+            out.append((c, k))
+            continue
+        for t in prog.resolve(c):
+            g = prog.fns.get(t)
+            if g is not None and g.file == f.file and g.id != f.id and not g.is_coroutine and g.id == prog.fns[g.id].root:
+                ks = [kind_of(x) for x in g.calls if x.bb in g.reachable() and 'Header' in x.full]
+                ks = [x for x in ks if x]
+                if ks:
+                    out.append((c, ks[0]))
+                    break
+    return out
